@@ -174,6 +174,7 @@ Plan generate_plan(const std::string& prop, unsigned long long vseed, unsigned l
         int t = (!nonparse.empty() && r.chance(680)) ? r.pick(nonparse) : r.pick(elig);
         p.ops[(size_t)t].fail_k = K_ALL; p.target = t;
         p.extra = J::obj(); p.extra.set("subset_trials", thorough ? 4 : 1);
+        if (thorough && r.chance(500)) p.extra.set("all_targets", 1);
     } else if (prop == "C13") {
         int n = r.range(1, 3);
         p.mgrs.clear(); p.mgr_mask.clear();
